@@ -1,0 +1,26 @@
+//go:build !verif
+// +build !verif
+
+package zenodb
+
+import (
+	"github.com/getlantern/wal"
+	"github.com/getlantern/zenodb/common"
+)
+
+// Empty stand-ins for the verification hooks (see verif_hooks.go, build tag
+// "verif"). They compile to nothing in a normal build.
+
+func verifEntryStart(t *table)                                              {}
+func verifEntryDone(t *table, data []byte, offset wal.Offset, source int)   {}
+func verifRSSent(rs *rowStore)                                              {}
+func verifRSApplied(rs *rowStore)                                           {}
+func verifFieldsSent(rs *rowStore)                                          {}
+func verifFieldsApplied(rs *rowStore)                                       {}
+func verifFast() bool                                                       { return false }
+func verifStartCh(db *DB) chan struct{}                                     { return nil }
+func verifSubscribed(db *DB)                                                {}
+func verifJoined(db *DB, stream string)                                     {}
+func verifSubmitted(db *DB, id common.FollowerID, offset wal.Offset)        {}
+func verifDispatched(db *DB, stream string, data []byte, offset wal.Offset) {}
+func verifPoint(name string)                                                {}
